@@ -1,5 +1,15 @@
 //! C19 — bit unpacking / packing are inverse; `BitOrder` spellings; `binary_repr` parses back.
 //! Value protocol: bytes and bits are small integers; the model's answer is compared as text.
+//!
+//! Robustness streams (FRAMEWORK.md): EVERY unpack / pack / round-trip case is executed (a) on the plain `Array<u8>` receiver
+//! (the compared answer), (b) a second time, (c) on `Ok(array)` through `impl ArrayBinaryBits for Result<Array<u8>, ArrayError>`
+//! (the round trip fully chained: `Ok(a).unpack_bits(..).pack_bits(..)`), (d) with every other spelling of the same order
+//! (absent / enum / `&str` / owned `String`; an unknown text in the other text type) on both receivers; any divergence fails
+//! the case.  `binary_repr` is called through `Array::<T>::binary_repr`, the `Result` receiver's associated function and
+//! `Numeric::binary_repr`.  The generator adds byte arrays above 128 / 256 / 1024 / 4096 bytes flat and as lanes, bit arrays
+//! around 128*8, 256*8, 1024*8 and 4096*8 bits, `big_shapes()`, `zero_shapes()` and seeded random big inputs.  The ops
+//! `unpack_ref` / `pack_ref` / `roundtrip_ref` are the same real calls; the model answers them on the reference lane
+//! semantics alone (the pipeline model of `apply_along_axis` needs ~2 s per 1000 bytes by axis).
 use arrharness::*;
 
 // ------------------------------------------------------------------ protocol
@@ -35,26 +45,84 @@ fn show_u8(r: &Result<Array<u8>, ArrayError>) -> String {
     }
 }
 
-fn unpack(a: &Array<u8>, axis: Option<isize>, count: Option<isize>, order: &Order) -> Result<Array<u8>, ArrayError> {
-    match order {
-        Order::Absent => a.unpack_bits(axis, count, None::<BitOrder>),
-        Order::Enum(o) => a.unpack_bits(axis, count, Some(*o)),
-        Order::Str(s) => a.unpack_bits(axis, count, Some(s.as_str())),
-        Order::Owned(s) => a.unpack_bits(axis, count, Some(s.clone())),
+/// bind `$o` to the option in the caller's spelling (the type differs per arm) and evaluate `$call`
+macro_rules! with_order { ($order:expr, |$o:ident| $call:expr) => { match $order {
+    Order::Absent => { let $o = None::<BitOrder>; $call }
+    Order::Enum(e) => { let $o = Some(*e); $call }
+    Order::Str(t) => { let $o = Some(t.as_str()); $call }
+    Order::Owned(t) => { let $o = Some(t.clone()); $call }
+} } }
+
+/// `chained` = the call goes through `impl ArrayBinaryBits for Result<Array<u8>, ArrayError>` on `Ok(array)`
+fn unpack(a: &Array<u8>, chained: bool, axis: Option<isize>, count: Option<isize>, order: &Order) -> Result<Array<u8>, ArrayError> {
+    if chained { let r: Result<Array<u8>, ArrayError> = Ok(a.clone()); with_order!(order, |o| r.unpack_bits(axis, count, o)) }
+    else { with_order!(order, |o| a.unpack_bits(axis, count, o)) }
+}
+fn pack(a: &Array<u8>, chained: bool, axis: Option<isize>, order: &Order) -> Result<Array<u8>, ArrayError> {
+    if chained { let r: Result<Array<u8>, ArrayError> = Ok(a.clone()); with_order!(order, |o| r.pack_bits(axis, o)) }
+    else { with_order!(order, |o| a.pack_bits(axis, o)) }
+}
+fn roundtrip(a: &Array<u8>, chained: bool, axis: Option<isize>, order: &Order) -> Result<Array<u8>, ArrayError> {
+    if chained {
+        // fully chained: the packing call is made on the `Result` the unpacking call returned
+        let r: Result<Array<u8>, ArrayError> = Ok(a.clone());
+        let u = with_order!(order, |o| r.unpack_bits(axis, None, o));
+        with_order!(order, |o| u.pack_bits(axis, o))
+    } else {
+        unpack(a, false, axis, None, order).and_then(|u| pack(&u, false, axis, order))
     }
 }
-fn pack(a: &Array<u8>, axis: Option<isize>, order: &Order) -> Result<Array<u8>, ArrayError> {
-    match order {
-        Order::Absent => a.pack_bits(axis, None::<BitOrder>),
-        Order::Enum(o) => a.pack_bits(axis, Some(*o)),
-        Order::Str(s) => a.pack_bits(axis, Some(s.as_str())),
-        Order::Owned(s) => a.pack_bits(axis, Some(s.clone())),
+
+/// the other spellings of the same option: absent/enum/&str/String for a recognised order, the other text type otherwise
+fn respellings(order: &Order) -> Vec<(&'static str, Order)> {
+    let resolved = match order {
+        Order::Absent => Some(BitOrder::Big),
+        Order::Enum(o) => Some(*o),
+        Order::Str(t) | Order::Owned(t) => match t.as_str() { "big" => Some(BitOrder::Big), "little" => Some(BitOrder::Little), _ => None },
+    };
+    match resolved {
+        Some(o) => {
+            let word = if o == BitOrder::Big { "big" } else { "little" };
+            let mut v = vec![("enum spelling", Order::Enum(o)), ("&str spelling", Order::Str(word.to_string())), ("String spelling", Order::Owned(word.to_string()))];
+            if o == BitOrder::Big { v.push(("absent option", Order::Absent)); }
+            v
+        }
+        None => match order {
+            Order::Str(t) => vec![("String spelling of the same text", Order::Owned(t.clone()))],
+            Order::Owned(t) => vec![("&str spelling of the same text", Order::Str(t.clone()))],
+            _ => vec![],
+        },
     }
+}
+
+/// run `f(chained, order)` on the plain receiver (the answer), again, chained, and with every other spelling on both receivers
+fn all_ways(order: &Order, f: &dyn Fn(bool, &Order) -> Result<Array<u8>, ArrayError>) -> String {
+    let base = guarded(|| show_u8(&f(false, order)));
+    let mut ways: Vec<(String, String)> = vec![
+        ("the same call a second time".into(), guarded(|| show_u8(&f(false, order)))),
+        ("the call on Ok(array) (Result receiver)".into(), guarded(|| show_u8(&f(true, order)))),
+    ];
+    for (label, o) in respellings(order) {
+        ways.push((format!("{label}, plain receiver"), guarded(|| show_u8(&f(false, &o)))));
+        ways.push((format!("{label}, Result receiver"), guarded(|| show_u8(&f(true, &o)))));
+    }
+    for (label, got) in ways {
+        let same = got == base || (class_of(&got) == "err" && class_of(&base) == "err");
+        if !same { return format!("DIVERGENCE {label} gives `{}`; the plain call as spelled gives `{}`", truncate(&got, 300), truncate(&base, 300)); }
+    }
+    base
 }
 
 macro_rules! repr_case { ($ty:ty, $uty:ty, $v:expr, $op:expr) => {{
     let v: $ty = $v.parse().ok()?;
-    let text = guarded(|| format!("ok {}", Array::<$ty>::binary_repr(v)));
+    let text = guarded(|| {
+        let t = Array::<$ty>::binary_repr(v);
+        let via_result = <Result<Array<$ty>, ArrayError> as ArrayBinary<$ty>>::binary_repr(v);
+        let via_numeric = Numeric::binary_repr(&v);
+        if via_result != t { format!("DIVERGENCE the Result receiver's binary_repr gives `{via_result}`, Array::binary_repr `{t}`") }
+        else if via_numeric != t { format!("DIVERGENCE Numeric::binary_repr gives `{via_numeric}`, Array::binary_repr `{t}`") }
+        else { format!("ok {t}") }
+    });
     if $op == "binary_repr" { text }
     else {
         // parse back natively: unsigned type of the same width, reinterpreted
@@ -67,18 +135,18 @@ macro_rules! repr_case { ($ty:ty, $uty:ty, $v:expr, $op:expr) => {{
 
 fn exec(op: &str, args: &[&str], expected: &str) -> Option<Verdict> {
     let observed = match op {
-        "unpack" => {
+        "unpack" | "unpack_ref" => {
             let a = parse_bytes(args[0])?; let axis = parse_opt::<isize>(args[1]); let count = parse_opt::<isize>(args[2]);
             let order = parse_order(args[3])?;
-            guarded(|| show_u8(&unpack(&a, axis, count, &order)))
+            all_ways(&order, &|chained, o| unpack(&a, chained, axis, count, o))
         }
-        "pack" => {
+        "pack" | "pack_ref" => {
             let a = parse_bytes(args[0])?; let axis = parse_opt::<isize>(args[1]); let order = parse_order(args[2])?;
-            guarded(|| show_u8(&pack(&a, axis, &order)))
+            all_ways(&order, &|chained, o| pack(&a, chained, axis, o))
         }
-        "roundtrip" => {
+        "roundtrip" | "roundtrip_ref" => {
             let a = parse_bytes(args[0])?; let axis = parse_opt::<isize>(args[1]); let order = parse_order(args[2])?;
-            guarded(|| show_u8(&unpack(&a, axis, None, &order).and_then(|u| pack(&u, axis, &order))))
+            all_ways(&order, &|chained, o| roundtrip(&a, chained, axis, o))
         }
         "to_bit_order" => {
             let r = match parse_order(args[0])? {
@@ -98,7 +166,12 @@ fn exec(op: &str, args: &[&str], expected: &str) -> Option<Verdict> {
             "isize" => repr_case!(isize, usize, args[1], op),
             "bool" => {
                 let v = match args[1] { "0" => false, "1" => true, _ => return None };
-                let text = guarded(|| format!("ok {}", Array::<bool>::binary_repr(v)));
+                let text = guarded(|| {
+                    let t = Array::<bool>::binary_repr(v);
+                    let via_result = <Result<Array<bool>, ArrayError> as ArrayBinary<bool>>::binary_repr(v);
+                    let via_numeric = Numeric::binary_repr(&v);
+                    if via_result != t || via_numeric != t { format!("DIVERGENCE binary_repr entry points disagree: `{t}` / `{via_result}` / `{via_numeric}`") } else { format!("ok {t}") }
+                });
                 if op == "binary_repr" { text } else {
                     match text.strip_prefix("ok ") { Some(t) => match u8::from_str_radix(t, 2) { Ok(u) if u < 2 => format!("ok {u}"), _ => "err parse".to_string() }, None => text }
                 }
@@ -110,7 +183,10 @@ fn exec(op: &str, args: &[&str], expected: &str) -> Option<Verdict> {
     // the property itself, independent of the model: the round trip returns the input
     // (by axis: bytes and shape; flat form: the bytes in flat order as a 1-D array)
     let want_rt = |a: &str| if args[1] == "none" { let (sh, el) = a.split_once(':').unwrap(); format!("ok {}:{}", prod(&parse_usize_list(sh)), el) } else { format!("ok {a}") };
-    if op == "roundtrip" && class_of(&observed) == "ok" && observed != want_rt(args[0]) {
+    // (an empty input is answered by `Array::empty()` — shape [0] — in both operations; the theorems exclude zero-length axes,
+    //  so there only the model's answer is compared)
+    let empty_input = args[0].ends_with(":-");
+    if (op == "roundtrip" || op == "roundtrip_ref") && !empty_input && class_of(&observed) == "ok" && observed != want_rt(args[0]) {
         return Some(Verdict::Mismatch { detail: format!("pack_bits(unpack_bits(a)) is not a; model says `{}`", truncate(expected, 300)), observed });
     }
     if op == "repr_parse" && class_of(&observed) == "ok" && observed != format!("ok {}", args[1]) {
@@ -131,6 +207,189 @@ fn axes_of(rank: usize, k: usize) -> Vec<String> {
     let mut v = vec!["none".to_string()];
     for ax in 0..rank { v.push(if (ax + k) % 2 == 0 { ax.to_string() } else { (ax as isize - rank as isize).to_string() }); }
     v
+}
+
+
+// ------------------------------------------------------------------ robustness streams (sizes, lanes, thresholds)
+
+/// the model's pipeline form of `apply_along_axis` is affordable up to this many elements by axis; above it the `_ref` ops
+const PIPE_MAX: usize = 300;
+/// `wide` = this call site may use the pipeline model up to PIPE_MAX elements (otherwise up to 150: ~0.2 s of model time per case above)
+fn opname_w(base: &str, elems: usize, axis: &str, wide: bool) -> String {
+    if axis != "none" && elems > (if wide { PIPE_MAX } else { 150 }) { format!("{base}_ref") } else { base.to_string() }
+}
+fn fill(kind: usize, n: usize, fx: &mut Rng) -> Vec<u8> {
+    match kind % 3 {
+        0 => (0..n).map(|i| ((i * 7 + 3) % 256) as u8).collect(),      // every byte value once n >= 256, asymmetric neighbours
+        1 => (0..n).map(|_| fx.below(256) as u8).collect(),
+        _ => (0..n).map(|i| [0x01u8, 0x80, 0xA5, 0x3C, 0xFE, 0x7F, 0x00, 0xFF, 0x10][i % 9]).collect(),   // period 9: never aligned with 8-byte groups
+    }
+}
+fn bits_fill(kind: usize, n: usize, fx: &mut Rng) -> Vec<u8> {
+    match kind % 4 {
+        0 => (0..n).map(|_| fx.below(2) as u8).collect(),
+        1 => (0..n).map(|i| ((i % 11 == 0) || (i % 7 == 3)) as u8).collect(),
+        2 => (0..n).map(|_| *fx.pick(&[0u8, 0, 1, 1, 2, 7, 128, 255])).collect(),     // values > 1 count as set bits
+        _ => { let mut v = vec![0u8; n]; v[n - 1] = 1; v[0] = 1; if n > 9 { v[n - 9] = 1; } v }
+    }
+}
+
+fn robustness(thorough: bool, seed: u64, out: &mut dyn FnMut(String)) {
+    let mut fx = Rng::new(0xB19);
+    let mut k = 0usize;
+    let spell = |little: bool, k: usize| if little { ORDERS_LITTLE[k % 3] } else { ORDERS_BIG[k % 4] };
+
+    // (R1.a) flat byte arrays above 128 / 256 / 1024 / 4096 bytes, byte counts divisible by 8 and not; rank 1 also by axis
+    let mut sizes: Vec<usize> = vec![8, 9, 16, 17, 64, 100, 120, 127, 128, 129, 135, 136, 144, 255, 256, 257, 264, 300, 512, 520, 1023, 1024, 1030, 1032, 2048, 2056, 4096, 4100, 4104];
+    if thorough { sizes.extend([1016, 1040, 1536, 2047, 3000, 4095, 4097, 4112, 5000, 8192, 8200]); }
+    for &n in &sizes {
+        for little in [true, false] {
+            k += 1;
+            if !thorough && n > 1100 && !little && n != 4096 { continue; }
+            let a = arr(&[n], &fill(k, n, &mut fx));
+            out(format!("roundtrip {a} none {}", spell(little, k)));
+            if n <= 1100 || thorough { out(format!("unpack {a} none none {}", spell(little, k + 1))); }
+            if n <= 1100 || (thorough && little) {
+                let ax = if k % 2 == 0 { "0" } else { "-1" };
+                out(format!("{} {a} {ax} {}", opname_w("roundtrip", n, ax, thorough || (little && [128, 136, 256, 264].contains(&n))), spell(little, k + 2)));
+            }
+            // the count argument on a long input: around the full length and around the 64-bit word boundaries
+            if n == 128 || n == 264 || n == 1024 {
+                let b = 8 * n as isize;
+                for c in [b, b - 1, b + 1, b - 64, -1, -63, -64, -65, -b, -b - 1, 1, 63, 64, 65] { out(format!("unpack {a} none {c} {}", spell(little, k))); }
+            }
+        }
+    }
+    // (R1.b) the same lengths as LANES on every axis position
+    let mut lanes: Vec<usize> = vec![128, 129, 135, 136, 144, 200, 256, 264, 512, 520, 1024, 1032];
+    if thorough { lanes.extend([127, 160, 248, 272, 1016, 1040, 2048]); }
+    for &l in &lanes {
+        let mut forms: Vec<(Vec<usize>, isize)> = vec![(vec![2, l], 1), (vec![l, 2], 0), (vec![1, l], -1)];
+        if l <= 600 || thorough { forms.extend([(vec![2, l], -1), (vec![l, 2], -2), (vec![l, 1], 0)]); }
+        if l <= 300 { forms.extend([(vec![2, l, 2], 1), (vec![3, l], 1), (vec![l, 3], -2)]); }
+        for (sh, ax) in forms {
+            k += 1;
+            let n = prod(&sh);
+            let a = arr(&sh, &fill(k, n, &mut fx));
+            let axs = ax.to_string();
+            let little_first = [true, false];
+            for little in little_first {
+                if !little && k % 3 != 0 && !thorough { continue; }
+                let wide = thorough || (little && l == 128 && sh.len() == 2 && sh.contains(&2));
+                out(format!("{} {a} {axs} {}", opname_w("roundtrip", n, &axs, wide), spell(little, k)));
+                if k % 2 == 0 { out(format!("{} {a} {axs} none {}", opname_w("unpack", n, &axs, thorough), spell(little, k + 1))); }
+            }
+            // the other axis of the same array (short lanes) and the flat form
+            if sh.len() == 2 && k % 4 == 0 {
+                let other = (1 - (ax + 2) % 2).to_string();
+                out(format!("{} {a} {other} {}", opname_w("roundtrip", n, &other, thorough), spell(true, k)));
+                out(format!("roundtrip {a} none {}", spell(true, k + 1)));
+            }
+        }
+    }
+    // lanes above 4096 bytes (reference lane semantics; ~2 s of model time each)
+    let huge: Vec<(Vec<usize>, isize)> = if thorough { vec![(vec![1, 4104], 1), (vec![4096, 1], -2), (vec![4104, 1], 0), (vec![2, 4096], -1), (vec![4100, 2], 0), (vec![1, 8192], 1)] }
+                                         else { vec![(vec![1, 4104], 1)] };
+    for (sh, ax) in huge {
+        k += 1;
+        let a = arr(&sh, &fill(k, prod(&sh), &mut fx));
+        out(format!("roundtrip_ref {a} {ax} {}", spell(true, k)));
+        if thorough { out(format!("roundtrip_ref {a} {ax} {}", spell(false, k))); }
+    }
+    // (R1.c) bit arrays around 128*8, 256*8, 1024*8, 4096*8 bits: flat, both orders, bits and values > 1
+    let mut blens: Vec<usize> = vec![];
+    for c in [1024usize, 2048, 8192] { blens.extend(c - 7..=c + 8); }
+    blens.extend([504, 512, 520, 1088, 4096, 4100, 16384, 16385, 32767, 32768, 32776]);
+    if thorough { blens.extend(32761..=32775); blens.extend([65536, 65537, 65600]); blens.extend(4089..=4104); }
+    for &len in &blens {
+        for little in [true, false] {
+            k += 1;
+            if len > 10000 && !little && !thorough { continue; }
+            let a = arr(&[len], &bits_fill(k, len, &mut fx));
+            out(format!("pack {a} none {}", spell(little, k)));
+            if len <= 9000 && k % 3 == 0 { let ax = if k % 2 == 0 { "0" } else { "-1" }; out(format!("{} {a} {ax} {}", opname_w("pack", len, ax, thorough), spell(little, k + 1))); }
+        }
+    }
+    // ... and as lanes
+    for len in [1024usize, 1031, 1032, 1088, 2048, 8192, 8200] {
+        for (sh, ax) in [(vec![2, len], 1isize), (vec![len, 2], 0), (vec![len, 1], -2)] {
+            k += 1;
+            if len >= 8192 && sh[1] == 2 && !thorough { continue; }
+            let n = prod(&sh);
+            let a = arr(&sh, &bits_fill(k, n, &mut fx));
+            out(format!("pack_ref {a} {ax} {}", spell(true, k)));
+            if (k % 2 == 0 && len < 8192) || thorough { out(format!("pack_ref {a} {ax} {}", spell(false, k))); }
+        }
+    }
+    if thorough {
+        let a = arr(&[1, 32776], &bits_fill(0, 32776, &mut fx));
+        out(format!("pack_ref {a} 1 {}", spell(true, k)));
+        let a = arr(&[32768, 2], &bits_fill(0, 65536, &mut fx)); out(format!("pack_ref {a} 0 {}", spell(true, k + 1)));
+    }
+
+    // (R2) big_shapes(): axis lengths 7..17 in every position, element counts > 256 / 1024 / 4096; every axis and the flat form
+    for sh in big_shapes() {
+        let n = prod(&sh);
+        let r = sh.len();
+        k += 1;
+        let a = arr(&sh, &fill(k, n, &mut fx));
+        out(format!("roundtrip {a} none {}", spell(true, k)));
+        if n <= 2100 || thorough { out(format!("roundtrip {a} none {}", spell(false, k))); }
+        if n <= 1100 { out(format!("unpack {a} none none {}", spell(k % 2 == 0, k + 1))); }
+        for ax in 0..r {
+            let axs = if (ax + k) % 2 == 0 { ax.to_string() } else { (ax as isize - r as isize).to_string() };
+            if n > 2100 && !thorough && ax != k % r { continue; }
+            for little in [true, false] {
+                if !little && !thorough && (n > 2100 || ax != k % r) { continue; }
+                out(format!("{} {a} {axs} {}", opname_w("roundtrip", n, &axs, thorough || (little && ax == k % r)), spell(little, k + ax)));
+            }
+            if n <= 1300 { out(format!("{} {a} {axs} {} {}", opname_w("unpack", n, &axs, thorough), ["none", "-3", "11", "-8"][(k + ax) % 4], spell((k + ax) % 2 == 0, k))); }
+            // thorough tier: the crate-pipeline model as well on the medium shapes
+            if n > PIPE_MAX && n <= 1300 && thorough { out(format!("roundtrip {a} {axs} {}", spell(true, k + 1))); }
+        }
+        // bits of the same shape packed along every axis (lane lengths 7..17: one and two groups with padding)
+        let b = arr(&sh, &bits_fill(k, n, &mut fx));
+        out(format!("pack {b} none {}", spell(k % 2 == 0, k)));
+        for ax in 0..r { if n <= 2100 || thorough || ax == k % r { out(format!("{} {b} {ax} {}", opname_w("pack", n, "0", thorough), spell((k + ax) % 2 == 1, k + ax))); } }
+    }
+    if thorough { let a = arr(&[4100], &fill(1, 4100, &mut fx)); out(format!("roundtrip {a} 0 E:little")); }
+
+    // (R3) zero-length axes
+    for sh in zero_shapes() {
+        let a = arr(&sh, &[]);
+        for ax in ["none", "0", "1", "2", "-1", "-3", "5"] {
+            for o in ["none", "E:little", "T:6c6974746c65", "S:626f67757300"] {
+                out(format!("unpack {a} {ax} none {o}"));
+                out(format!("pack {a} {ax} {o}"));
+                out(format!("roundtrip {a} {ax} {o}"));
+            }
+            for c in ["0", "3", "-3"] { out(format!("unpack {a} {ax} {c} E:big")); }
+        }
+    }
+
+    // (R-seeded) random big inputs from the run's seed
+    let mut rng = Rng::new(seed ^ 0x5EED_B19);
+    let n_big = if thorough { 60 } else { 14 };
+    let all_orders: Vec<&str> = ORDERS_BIG.iter().chain(ORDERS_LITTLE.iter()).copied().collect();
+    for i in 0..n_big {
+        let o = *rng.pick(&all_orders);
+        match i % 4 {
+            0 => { let n = 100 + rng.below(1200); let v: Vec<u8> = (0..n).map(|_| rng.below(256) as u8).collect(); out(format!("roundtrip {} none {o}", arr(&[n], &v))); }
+            1 => {
+                let l = 120 + rng.below(200); let m = 1 + rng.below(3);
+                let (sh, ax) = if rng.below(2) == 0 { (vec![m, l], 1) } else { (vec![l, m], 0) };
+                let v: Vec<u8> = (0..prod(&sh)).map(|_| rng.below(256) as u8).collect();
+                out(format!("{} {} {ax} {o}", opname_w("roundtrip", prod(&sh), "0", false), arr(&sh, &v)));
+            }
+            2 => { let n = 1000 + rng.below(8000); let v: Vec<u8> = (0..n).map(|_| rng.below(2) as u8).collect(); out(format!("pack {} none {o}", arr(&[n], &v))); }
+            _ => {
+                let sh = vec![7 + rng.below(11), 7 + rng.below(11), 1 + rng.below(3)];
+                let v: Vec<u8> = (0..prod(&sh)).map(|_| rng.below(256) as u8).collect();
+                let ax = rng.range(-3, 2);
+                out(format!("{} {} {ax} {o}", opname_w("roundtrip", prod(&sh), "0", false), arr(&sh, &v)));
+            }
+        }
+    }
 }
 
 fn gen(tier: &str, seed: u64, out: &mut dyn FnMut(String)) {
@@ -239,6 +498,7 @@ fn gen(tier: &str, seed: u64, out: &mut dyn FnMut(String)) {
             out(format!("unpack {} {ax} -3 none", arr(&s, &[])));
         }
     }
+    robustness(thorough, seed, out);
     // (ii.g) binary_repr
     for ty in ["u8", "i8"] {
         let (lo, hi) = if ty == "u8" { (0i64, 255) } else { (-128, 127) };
@@ -254,6 +514,30 @@ fn gen(tier: &str, seed: u64, out: &mut dyn FnMut(String)) {
         for e in 0..64 { let p = 1i128 << e; vs.extend([p - 1, p, p + 1, -p - 1, -p, -p + 1]); }
         vs.retain(|v| lo <= *v && *v <= hi); vs.sort(); vs.dedup();
         for v in vs { out(format!("binary_repr {ty} {v}")); out(format!("repr_parse {ty} {v}")); }
+    }
+
+    // values beyond 2^53 (where an f64 round trip loses bits) and next to the type limits, every 64-bit type
+    for ty in ["i64", "isize", "u64", "usize"] {
+        let signed = ty.starts_with('i');
+        let hi: i128 = if signed { i64::MAX as i128 } else { u64::MAX as i128 };
+        let lo: i128 = if signed { i64::MIN as i128 } else { 0 };
+        let mut vs: Vec<i128> = vec![];
+        for d in 0..=6i128 { vs.extend([(1i128 << 53) + d, (1i128 << 53) - d, -(1i128 << 53) - d, -(1i128 << 53) + d, hi - d, lo + d, (1i128 << 62) + d, (1i128 << 63) + d, (1i128 << 63) - d, (1i128 << 54) + 2 * d + 1]); }
+        vs.extend([1234567890123456789, -1234567890123456789, 9007199254740993, 18014398509481985, 0x5555_5555_5555_5555, 0xAAAA_AAAA_AAAA_AAAAu64 as i128, 0x0123_4567_89AB_CDEF, 0xFEDC_BA98_7654_3211u64 as i128]);
+        vs.retain(|v| lo <= *v && *v <= hi); vs.sort(); vs.dedup();
+        for v in vs { out(format!("binary_repr {ty} {v}")); out(format!("repr_parse {ty} {v}")); }
+    }
+    // seeded full-range values of every integer type
+    let mut rr = Rng::new(seed ^ 0xB1_0B5);
+    let n_repr = if thorough { 1500 } else { 150 };
+    for (ty, lo, hi) in [("i8", -128i128, 127i128), ("u8", 0, 255), ("i16", -32768, 32767), ("u16", 0, 65535), ("i32", i32::MIN as i128, i32::MAX as i128), ("u32", 0, u32::MAX as i128),
+                         ("i64", i64::MIN as i128, i64::MAX as i128), ("isize", i64::MIN as i128, i64::MAX as i128), ("u64", 0, u64::MAX as i128), ("usize", 0, u64::MAX as i128)] {
+        for i in 0..n_repr {
+            let span = (hi - lo + 1) as u128;
+            let mut v = lo + ((((rr.next() as u128) << 64) | rr.next() as u128) % span) as i128;
+            if i % 3 == 0 { let e = rr.below(64) as u32; v = (v >> e).clamp(lo, hi); }    // every magnitude, not only the top bits
+            out(format!("binary_repr {ty} {v}")); out(format!("repr_parse {ty} {v}"));
+        }
     }
 
     // (iii) seeded random stream: rank <= 3, len <= 5, random bytes / bits, any axis / order / count
@@ -288,7 +572,7 @@ fn gen(tier: &str, seed: u64, out: &mut dyn FnMut(String)) {
 /// non-trivial: an array with at least two elements; a number of magnitude >= 2; every spelling case
 fn nontrivial(op: &str, args: &[&str]) -> bool {
     match op {
-        "unpack" | "pack" | "roundtrip" => args[0].split_once(':').map_or(false, |(_, e)| e.contains(',')),
+        "unpack" | "pack" | "roundtrip" | "unpack_ref" | "pack_ref" | "roundtrip_ref" => args[0].split_once(':').map_or(false, |(_, e)| e.contains(',')),
         "binary_repr" | "repr_parse" => args[1] != "0" && args[1] != "1" && args[1] != "-1",
         _ => true,
     }
